@@ -13,6 +13,10 @@ CLAIMED = {
     'C03': ('Bounded model checking of readUnixTime/toAbsTime/comparisons/addX on symbolic integer-millisecond instants: every '
             'execution path for every instant of every year in the range is decided against a closed-form Gregorian oracle.',
             'DESIGN.md#c03', 'years 1970-2099 (quick) / 1970-2400 (thorough); integer milliseconds only', ''),
+    'C04': ('Bounded model checking of the sequence operations of Track (sort via argsort, chronological insertion by dichotomy, extract, extractSpanTime, +, % n, % pattern, > n, < n, '
+            'removeObsList) with symbolic integer instants (ties allowed) and symbolic integer arguments case-split by the solver: the returned observations are compared with the designated '
+            'ones per path, time order proved from the path condition.',
+            'DESIGN.md#c04', 'sort n <= 4/6; insertion into sorted tracks of size 0..9/17; slicing family n <= 4/6', ''),
     'C06': ('Bounded model checking of Dijkstra routing (run_routing_forward / shortest_distance / all_shortest_distances / prepare) with symbolic '
             'edge weights and cut-off on exhaustively enumerated small multigraph topologies, against the minimum over all enumerated permitted walks.',
             'DESIGN.md#c06', 'topologies: 1-3 edges on <=3 nodes exhaustively (thorough: + seeded 4-5 node graphs); weights in [0,1000]', ''),
@@ -20,6 +24,10 @@ CLAIMED = {
             'multigraphs with concrete multi-vertex edge geometries; node list, edge permission, weight sum == minimum and geometry continuity asserted per path; '
             'every query is issued twice on the same network object.',
             'DESIGN.md#c07', 'same bounds as C06; source != target', ''),
+    'C09': ('Bounded model checking of HMM.estimate (Viterbi forward recursion, back-pointers, argmin reconstruction) on fully symbolic time-dependent observation / transition '
+            'tables with per-epoch candidate counts: on every path the decoded sequence is proved optimal against all enumerated candidate sequences and hmm_cost at the last epoch equal to the optimum; '
+            'likelihood mode (incl. exact zeros) with math.log as a monotone uninterpreted function, linked to the log-form run of the same model.',
+            'DESIGN.md#c09', 'T <= 3 epochs, S <= 2 (+ (2,3,2)) quick; T <= 5 with S = 2, T = 3 with S <= 3 thorough; costs in [-100,0]', ''),
     'C11': ('Bounded model checking of split() over every marker vector (one path per vector, markers symbolic 0/1) and of segmentation() over symbolic '
             'real-or-NaN feature values and thresholds in both comparison modes, including a second run into the same output feature.',
             'DESIGN.md#c11', 'split: n <= 9 (quick) / 13 (thorough); segmentation: n <= 2/3 observations, <= 3 tested features', ''),
